@@ -230,7 +230,8 @@ def classify_while(ctx: Ctx, f: Func, loop: ast.While) -> Tuple[str, str]:
                             incs = [n for n in body_nodes if isinstance(n, ast.AugAssign) and isinstance(n.op, ast.Add) and isinstance(n.target, ast.Name) and n.target.id == c
                                     and isinstance(n.value, ast.Constant) and isinstance(n.value.value, int) and n.value.value > 0]
                             bound_const = isinstance(t.ast.comparators[0], ast.Constant) or isinstance(t.ast.comparators[0], ast.Name) and t.ast.comparators[0].id.isupper()
-                            if incs and bound_const and any(cfg.dominates(q.node_for(f, i), pn) for i in incs):
+                            resets = [n for n in body_nodes if isinstance(n, ast.Assign) and any(isinstance(t_, ast.Name) and t_.id == c for t_ in n.targets)]
+                            if incs and bound_const and not resets and any(cfg.dominates(q.node_for(f, i), pn) for i in incs):
                                 return True
                     return False
                 if all(counted(p) for p in puts_):
@@ -844,6 +845,8 @@ def r05_9(ctx: Ctx) -> None:
 
 
 def run(ctx: Ctx) -> None:
+    from . import c06 as _c06g
+    _c06g.r06_18(ctx, rule="R05.11")  # a record that is parsed out of its place (a CRC vector sized by a count no Size record confirmed) allocates by a declared number
     from . import c04 as _c04s
     _c04s.r04_18(ctx, rule="R05.10")  # the decoder's predicates say what their names say
     shared.strict_reads(ctx, "R05.6")
